@@ -25,6 +25,10 @@ pub struct SubSpec {
     pub prefix: Vec<u8>,
     /// 0 keep the handle, 1 forever(), 2 drop immediately, 3 dropped later by a DropSub event
     pub mode: u8,
+    /// The callback is a zero-sized function item (captures nothing; it records into a
+    /// thread-local log) instead of a capturing closure. Only for subscription indices < 16.
+    #[serde(default)]
+    pub zst: bool,
 }
 
 #[derive(Clone, Debug, PartialEq, Eq, Serialize, Deserialize)]
@@ -65,11 +69,59 @@ struct SubState {
     active: bool,
 }
 
-fn subscribe(side: &mut Side, sub_id: usize, prefix: &str, mode: u8) {
-    let log = side.log.clone();
-    let handle = side.node.subscribe_event(prefix, move |ev| {
-        log.lock().unwrap().push((sub_id, ev.key.to_string(), ev.value.to_string(), ev.node.node_id.clone()));
+thread_local! {
+    /// Calls recorded by the zero-sized callbacks: (side, subscription index, key, value, node).
+    static ZLOG: std::cell::RefCell<Vec<(usize, usize, String, String, String)>> = const { std::cell::RefCell::new(Vec::new()) };
+}
+
+fn zcb<const SIDE: usize, const K: usize>(ev: chitchat::KeyChangeEvent) {
+    ZLOG.with(|l| l.borrow_mut().push((SIDE, K, ev.key.to_string(), ev.value.to_string(), ev.node.node_id.clone())));
+}
+
+fn subscribe_zst<const SIDE: usize>(node: &Chitchat, sub_id: usize, prefix: &str) -> ListenerHandle {
+    macro_rules! pick {
+        ($($k:literal),*) => {
+            match sub_id {
+                $($k => node.subscribe_event(prefix, zcb::<SIDE, $k>),)*
+                _ => unreachable!(),
+            }
+        };
+    }
+    pick!(0, 1, 2, 3, 4, 5, 6, 7, 8, 9, 10, 11, 12, 13, 14, 15)
+}
+
+/// The side's log, with the calls of its zero-sized callbacks moved into it first.
+fn read_log(log: &Log, side: usize) -> Vec<(usize, String, String, String)> {
+    let mut l = log.lock().unwrap();
+    ZLOG.with(|z| {
+        let mut z = z.borrow_mut();
+        let mut rest = Vec::new();
+        for e in z.drain(..) {
+            if e.0 == side {
+                l.push((e.1, e.2, e.3, e.4));
+            } else {
+                rest.push(e);
+            }
+        }
+        *z = rest;
     });
+    l.clone()
+}
+
+fn clear_log(log: &Log, side: usize) {
+    log.lock().unwrap().clear();
+    ZLOG.with(|z| z.borrow_mut().retain(|e| e.0 != side));
+}
+
+fn subscribe(side: &mut Side, side_idx: usize, sub_id: usize, prefix: &str, mode: u8, zst: bool) {
+    let log = side.log.clone();
+    let handle = if zst && sub_id < 16 {
+        if side_idx == 0 { subscribe_zst::<0>(&side.node, sub_id, prefix) } else { subscribe_zst::<1>(&side.node, sub_id, prefix) }
+    } else {
+        side.node.subscribe_event(prefix, move |ev| {
+            log.lock().unwrap().push((sub_id, ev.key.to_string(), ev.value.to_string(), ev.node.node_id.clone()));
+        })
+    };
     match mode {
         1 => {
             handle.forever();
@@ -144,15 +196,15 @@ pub fn exec_listen(case: &LCase, tally: &mut Tally) -> Result<(), Failure> {
         let mut subs: Vec<SubState> = Vec::new();
         for (i, s) in case.subs.iter().enumerate() {
             let prefix = sym_string(&s.prefix);
-            subscribe(&mut a, i, &prefix, s.mode);
-            subscribe(&mut b, i, &prefix, s.mode);
+            subscribe(&mut a, 0, i, &prefix, s.mode, s.zst);
+            subscribe(&mut b, 1, i, &prefix, s.mode, s.zst);
             subs.push(SubState { prefix, active: s.mode != 2 });
         }
         let mut captured: Vec<Vec<u8>> = Vec::new();
         let mut nontrivial = false;
         for (step, ev) in case.events.iter().enumerate() {
-            a.log.lock().unwrap().clear();
-            b.log.lock().unwrap().clear();
+            clear_log(&a.log, 0);
+            clear_log(&b.log, 1);
             match ev {
                 LEvent::Set { key, val } | LEvent::SetTtl { key, val } => {
                     let ttl = matches!(ev, LEvent::SetTtl { .. });
@@ -184,7 +236,7 @@ pub fn exec_listen(case: &LCase, tally: &mut Tally) -> Result<(), Failure> {
                     if key.chars().next().map(|c| c.len_utf8() > 1).unwrap_or(false) || lens.len() >= 2 {
                         nontrivial = true;
                     }
-                    let actual = a.log.lock().unwrap().clone();
+                    let actual = read_log(&a.log, 0);
                     if let Err(e) = check_calls(&actual, &must, &may) {
                         return Err(fail("C15/local-calls", format!("key {key:?}: {e}"), step, ev));
                     }
@@ -204,7 +256,7 @@ pub fn exec_listen(case: &LCase, tally: &mut Tally) -> Result<(), Failure> {
                     if let Err(p) = r {
                         return Err(fail(&format!("C15/{}", p.signature()), p.describe(), step, ev));
                     }
-                    let actual = a.log.lock().unwrap().clone();
+                    let actual = read_log(&a.log, 0);
                     if let Err(e) = check_calls(&actual, &[], &[]) {
                         return Err(fail("C15/delete-calls", format!("key {key:?}: {e}"), step, ev));
                     }
@@ -278,14 +330,14 @@ pub fn exec_listen(case: &LCase, tally: &mut Tally) -> Result<(), Failure> {
                     if matches!(ev, LEvent::Redeliver(_)) {
                         tally.label("stale_redelivery");
                     }
-                    let actual = b.log.lock().unwrap().clone();
+                    let actual = read_log(&b.log, 1);
                     if !must.is_empty() {
                         tally.label("replicated_write_notified");
                     }
                     if let Err(e) = check_calls(&actual, &must, &may) {
                         return Err(fail("C15/replicated-calls", e, step, ev));
                     }
-                    let a_actual = a.log.lock().unwrap().clone();
+                    let a_actual = read_log(&a.log, 0);
                     if !a_actual.is_empty() {
                         return Err(fail("C15/owner-spurious", format!("owner listeners fired during gossip: {a_actual:?}"), step, ev));
                     }
@@ -317,7 +369,7 @@ pub fn exec_listen(case: &LCase, tally: &mut Tally) -> Result<(), Failure> {
                         }
                         tally.label("catch_up_applied");
                     }
-                    let actual = b.log.lock().unwrap().clone();
+                    let actual = read_log(&b.log, 1);
                     if let Err(e) = check_calls(&actual, &must, &[]) {
                         return Err(fail("C15/catch-up-calls", e, step, ev));
                     }
@@ -328,7 +380,7 @@ pub fn exec_listen(case: &LCase, tally: &mut Tally) -> Result<(), Failure> {
                     if let Err(p) = r {
                         return Err(fail(&format!("C15/{}", p.signature()), p.describe(), step, ev));
                     }
-                    let actual = a.log.lock().unwrap().clone();
+                    let actual = read_log(&a.log, 0);
                     if !actual.is_empty() {
                         return Err(fail("C15/gc-calls", format!("listeners fired during GC: {actual:?}"), step, ev));
                     }
@@ -350,8 +402,8 @@ pub fn exec_listen(case: &LCase, tally: &mut Tally) -> Result<(), Failure> {
                     if subs.len() < 12 {
                         let i = subs.len();
                         let prefix = sym_string(&spec.prefix);
-                        subscribe(&mut a, i, &prefix, spec.mode);
-                        subscribe(&mut b, i, &prefix, spec.mode);
+                        subscribe(&mut a, 0, i, &prefix, spec.mode, spec.zst);
+                        subscribe(&mut b, 1, i, &prefix, spec.mode, spec.zst);
                         subs.push(SubState { prefix, active: spec.mode != 2 });
                     }
                 }
@@ -378,8 +430,8 @@ fn key_strategy() -> impl Strategy<Value = Vec<u8>> {
 }
 
 fn sub_strategy() -> impl Strategy<Value = SubSpec> {
-    (proptest::collection::vec(0u8..4, 0..=3), prop_oneof![4 => Just(0u8), 2 => Just(1u8), 1 => Just(2u8)])
-        .prop_map(|(prefix, mode)| SubSpec { prefix, mode })
+    (proptest::collection::vec(0u8..4, 0..=3), prop_oneof![4 => Just(0u8), 2 => Just(1u8), 1 => Just(2u8)], proptest::bool::weighted(0.35))
+        .prop_map(|(prefix, mode, zst)| SubSpec { prefix, mode, zst })
 }
 
 fn event_strategy() -> impl Strategy<Value = LEvent> {
@@ -433,7 +485,7 @@ fn nth_sub_set(seed: u64, idx: u64) -> Vec<SubSpec> {
                 4 | 5 => 1,
                 _ => 2,
             };
-            SubSpec { prefix, mode }
+            SubSpec { prefix, mode, zst: next() % 3 == 0 }
         })
         .collect()
 }
